@@ -7,6 +7,7 @@ import (
 	"io"
 	"math/rand"
 	"strings"
+	"sync"
 
 	shared "github.com/aquilax/hranoprovod-cli/v3"
 	"github.com/aquilax/hranoprovod-cli/v3/parser"
@@ -142,12 +143,12 @@ func (c *concretiser) lineText(l absLine) string {
 	case "entry":
 		return c.entryLine(c.names[l.N], c.vals[l.V])
 	case "badsyntax":
-		return c.pick(indents) + c.pick(badSyntaxForms)
+		return c.pick(indents) + c.pick(badSyntaxForms) + c.pick(trails)
 	case "badnumber":
 		if c.sameBad != "" {
 			return c.pick(indents) + c.sameBad // the same malformed text on every malformed line of the file
 		}
-		return c.pick(indents) + c.pick(badNumberForms)
+		return c.pick(indents) + c.pick(badNumberForms) + c.pick(trails)
 	}
 	panic("unknown line kind " + l.K)
 }
@@ -299,10 +300,105 @@ func compareRet(ret error, want absEvent, texts []string) string {
 	return ""
 }
 
+// bufferBoundarySweep: line accounting where a line terminator meets the end of a read chunk.  A first comment line
+// is padded so that its LF, or the CR resp. the LF of its CRLF, is the last / first byte around offsets 4096, 8192
+// and 65536 (bufio's buffer sizes); a record with a malformed entry follows.  Whatever the padding, the
+// parser must deliver the record and report the malformed entry on line 4 with its exact text.
+func bufferBoundarySweep(e *env) {
+	for _, nl := range []string{"\n", "\r\n"} {
+		for _, boundary := range []int{4096, 8192, 16384, 65536} {
+			for delta := -3; delta <= 2; delta++ {
+				first := boundary + delta - len(nl) // length of line 1 without its terminator
+				if first < 2 || first >= 65530 {
+					continue
+				}
+				bad := "  broken entry 2x \t"
+				in := "#" + strings.Repeat("p", first-1) + nl + "2021/01/01:" + nl + "  a: 1" + nl + bad + nl + "  b: 2" + nl
+				ev, ret, p := runCallbackParser(strings.NewReader(in), "continue")
+				e.sum.Runs++
+				ok := p == nil && ret == nil && len(ev) == 2 && ev[0].T == "err" && ev[0].LineNo == 4 && ev[0].Line == bad &&
+					ev[1].T == "node" && ev[1].Header == "2021/01/01" && len(ev[1].Elements) == 2
+				if !ok {
+					e.mismatch("parser-events", "parser/parser.go", fmt.Sprintf("a first line of %d bytes ending in %q (terminator at the buffer boundary %d%+d): the parser delivers %+v (ret %v, panic %v); the file has a malformed entry %q on line 4 and one record with two entries", first, nl, boundary, delta, ev, ret, p, bad),
+						map[string]interface{}{"first_line_bytes": first, "newline": nl})
+				}
+			}
+		}
+	}
+}
+
+// independentParses: two parses in progress at the same time do not disturb each other.  While file A is being parsed
+// (from inside its callback, after its first record), file B is parsed completely; and the two files are parsed by
+// two goroutines side by side.  Each must deliver exactly what it delivers alone.
+func independentParses(e *env) {
+	mk := func(tag string, n int) string {
+		var sb strings.Builder
+		for i := 0; i < n; i++ {
+			fmt.Fprintf(&sb, "%s heading %d:\n  # note %s %d\n  %s food %d: %d\n  - \"%s other\": %d.5\n", tag, i, tag, i, tag, i, i, tag, i)
+		}
+		return sb.String()
+	}
+	a, b := mk("A", 300), mk("B", 500) // both beyond bufio's first 4096 bytes
+	aloneA, _, _ := runCallbackParser(strings.NewReader(a), "continue")
+	aloneB, _, _ := runCallbackParser(strings.NewReader(b), "continue")
+	same := func(x, y []pEvent) bool {
+		if len(x) != len(y) {
+			return false
+		}
+		for i := range x {
+			if !eventsEqual(x[i], y[i]) {
+				return false
+			}
+		}
+		return true
+	}
+	// nested
+	var gotA, gotB []pEvent
+	first := true
+	parser.ParseStreamCallback(strings.NewReader(a), lexCfg, func(n *shared.ParserNode, err error) (bool, error) {
+		if err == nil && n != nil {
+			gotA = append(gotA, nodeEvent(n))
+		} else {
+			gotA = append(gotA, errEvent(err))
+		}
+		if first {
+			first = false
+			gotB, _, _ = runCallbackParser(strings.NewReader(b), "continue")
+		}
+		return false, nil
+	})
+	e.sum.Runs += 2
+	if !same(gotA, aloneA) || !same(gotB, aloneB) {
+		e.mismatch("parser-events", "parser/parser.go", fmt.Sprintf("a parse started from inside another parse's callback: the outer parse delivers %d events (alone: %d), the inner one %d (alone: %d), or different ones", len(gotA), len(aloneA), len(gotB), len(aloneB)), map[string]interface{}{"outer_first_events": gotA[:min(len(gotA), 3)]})
+	}
+	// side by side
+	for round := 0; round < 20; round++ {
+		var ra, rb []pEvent
+		var wg sync.WaitGroup
+		wg.Add(2)
+		go func() {
+			defer wg.Done()
+			ra, _, _ = runCallbackParser(&jitterReader{data: []byte(a), rng: rand.New(rand.NewSource(int64(round))), failAt: -1}, "continue")
+		}()
+		go func() {
+			defer wg.Done()
+			rb, _, _ = runCallbackParser(&jitterReader{data: []byte(b), rng: rand.New(rand.NewSource(int64(round) + 99)), failAt: -1}, "continue")
+		}()
+		wg.Wait()
+		e.sum.Runs += 2
+		if !same(ra, aloneA) || !same(rb, aloneB) {
+			e.mismatch("parser-events", "parser/parser.go", fmt.Sprintf("two goroutines parsing different files side by side: %d and %d events, alone %d and %d (or different ones)", len(ra), len(rb), len(aloneA), len(aloneB)), map[string]interface{}{"round": round})
+			break
+		}
+	}
+}
+
 // parserReplay: every terminal state of Parser.tla (file, policy, fault -> events, result) is
 // realised as bytes in random layout variants and run through the real parser
 func parserReplay(e *env) error {
 	variants := e.argInt("variants", 2)
+	bufferBoundarySweep(e)
+	independentParses(e)
 	return e.eachCase(func(raw json.RawMessage) error {
 		var c parserCase
 		if err := json.Unmarshal(raw, &c); err != nil {
